@@ -145,6 +145,8 @@ func analyseLocks(fn *ssa.Function) *lockFlow {
 			case *ssa.Defer:
 				if op, ok := lockOpOf(x); ok && !op.acquire {
 					cur.deferred[lockName(op)] = true
+				} else if op, ok := handedOffRelease(x.Call.Value); ok {
+					cur.deferred[lockName(op)] = true // "store, release := s.acquire(); defer release()"
 				} else if mc, ok := x.Call.Value.(*ssa.MakeClosure); ok {
 					// defer func() { mu.Unlock() }()
 					if f, ok := mc.Fn.(*ssa.Function); ok {
@@ -174,7 +176,15 @@ func analyseLocks(fn *ssa.Function) *lockFlow {
 				if _, isGo := x.(*ssa.Go); isGo {
 					continue
 				}
-				if op, ok := lockOpOf(x); ok {
+				op, ok := lockOpOf(x)
+				if !ok {
+					if held, _, isHandOff := lockHandOff(directCallee(x)); isHandOff && fn != directCallee(x) {
+						op, ok = held, true // the helper returns with the lock held
+					} else if rel, isRel := handedOffRelease(x.Common().Value); isRel {
+						op, ok = rel, true
+					}
+				}
+				if ok {
 					if op.acquire {
 						if record {
 							lf.acqs++
@@ -695,4 +705,80 @@ func (c *Ctx) poolPairing(typ, field string) {
 	if n == 0 {
 		c.bad(typ+":pool-returned", 0, "no method of %s takes a session from %s", typ, field)
 	}
+}
+
+// lockHandOff recognises a new helper that takes a lock and hands the release to its caller:
+// "func (s *T) acquire() (V, func()) { s.mu.RLock(); return s.v, s.mu.RUnlock }".  It returns the
+// lock (in the helper's own terms) that is held at every return, and the index of the result
+// that is the bound release method of that same mutex.
+var handOffBusy = map[*ssa.Function]bool{}
+
+func lockHandOff(h *ssa.Function) (held lockOp, releaseIdx int, ok bool) {
+	if h == nil || !newHelpers[h] || h.Blocks == nil || handOffBusy[h] {
+		return lockOp{}, 0, false
+	}
+	handOffBusy[h] = true
+	defer delete(handOffBusy, h)
+	rets := returnsOf(h)
+	if len(rets) == 0 {
+		return lockOp{}, 0, false
+	}
+	releaseIdx = -1
+	for _, r := range rets {
+		found := false
+		for i, res := range r.Results {
+			mc, isMC := unspill(r, res).(*ssa.MakeClosure)
+			if !isMC || len(mc.Bindings) != 1 {
+				continue
+			}
+			f, isF := mc.Fn.(*ssa.Function)
+			if !isF {
+				continue
+			}
+			var op lockOp
+			switch {
+			case strings.HasSuffix(f.Name(), "RUnlock$bound"):
+				op = lockOp{acquire: true}
+			case strings.HasSuffix(f.Name(), "Unlock$bound"):
+				op = lockOp{acquire: true, write: true}
+			default:
+				continue
+			}
+			op.key = lockKey(mc.Bindings[0])
+			if releaseIdx >= 0 && (releaseIdx != i || held.key != op.key || held.write != op.write) {
+				return lockOp{}, 0, false
+			}
+			held, releaseIdx, found = op, i, true
+		}
+		if !found {
+			return lockOp{}, 0, false
+		}
+	}
+	// the lock is held at every return
+	lf := analyseLocks(h)
+	for _, r := range rets {
+		if !lf.must[r][lockName(held)] {
+			return lockOp{}, 0, false
+		}
+	}
+	return held, releaseIdx, true
+}
+
+// handedOffRelease: v is the release function a hand-off helper returned (possibly through a
+// local variable): the lock it releases.
+func handedOffRelease(v ssa.Value) (lockOp, bool) {
+	ex, ok := v.(*ssa.Extract)
+	if !ok {
+		return lockOp{}, false
+	}
+	call, ok := ex.Tuple.(*ssa.Call)
+	if !ok {
+		return lockOp{}, false
+	}
+	held, idx, ok := lockHandOff(directCallee(call))
+	if !ok || idx != ex.Index {
+		return lockOp{}, false
+	}
+	held.acquire = false
+	return held, true
 }
